@@ -85,6 +85,10 @@ func parseTraceIDRatio(arg string) (Sampler, error) {
 	if err != nil {
 		return TraceIDRatioBased(1.0), samplerArgParseError{err}
 	}
+	if v != v {
+		// NaN passes both range checks below.
+		return TraceIDRatioBased(1.0), samplerArgParseError{strconv.ErrRange}
+	}
 	if v < 0.0 {
 		return TraceIDRatioBased(1.0), errNegativeTraceIDRatio
 	}
